@@ -1296,6 +1296,51 @@ Proof.
   - intros k Hk. apply in_map_iff in Hk. destruct Hk as (j & <- & Hj). apply in_seq in Hj. lia.
 Qed.
 
+(* ======================================================================== hfield BVH mesh: merging coplanar cells *)
+(* bvh._optimize_hfield_mesh (host Python) replaces a rectangle of grid cells by one quad when every cell passes
+   fits_plane: (1) the cell is planar, (2) its corner (rr,cc) lies on the start cell's plane, (3) its x- and
+   y-slopes equal the start cell's.  Hand model with exact arithmetic (the 1e-5 tolerances read as equalities);
+   z r c = elevation at grid node (row r, column c).  Tied to the code by the mesh-exactness obligation of
+   bin/props/C34.py, which runs the real function on generated terrains. *)
+Definition hf_plane (z : Z -> Z -> R) (r c : Z) (sx sy : R) (rr cc : Z) : R :=
+  z r c + IZR (rr - r) * sy + IZR (cc - c) * sx.
+Definition cell_fits (z : Z -> Z -> R) (r c : Z) (sx sy : R) (rr cc : Z) : Prop :=
+  z rr cc + z (rr + 1)%Z (cc + 1)%Z = z rr (cc + 1)%Z + z (rr + 1)%Z cc /\
+  z rr cc = hf_plane z r c sx sy rr cc /\
+  z rr (cc + 1)%Z - z rr cc = sx /\ z (rr + 1)%Z cc - z rr cc = sy.
+
+(* the merge is exact: every grid node of the merged rectangle (corners and interior) lies on the quad's plane *)
+Theorem hfield_merge_exact (z : Z -> Z -> R) (r c h w : Z) (sx sy : R) :
+  (1 <= h)%Z -> (1 <= w)%Z ->
+  (forall rr cc, (r <= rr < r + h)%Z -> (c <= cc < c + w)%Z -> cell_fits z r c sx sy rr cc) ->
+  forall rr cc, (r <= rr <= r + h)%Z -> (c <= cc <= c + w)%Z -> z rr cc = hf_plane z r c sx sy rr cc.
+Proof.
+  intros Hh Hw Hfit rr cc Hr Hc.
+  set (r0 := if Z.ltb rr (r + h) then rr else (rr - 1)%Z).
+  set (c0 := if Z.ltb cc (c + w) then cc else (cc - 1)%Z).
+  assert (Hr0 : (r <= r0 < r + h)%Z) by (unfold r0; destruct (Z.ltb_spec rr (r + h)); lia).
+  assert (Hc0 : (c <= c0 < c + w)%Z) by (unfold c0; destruct (Z.ltb_spec cc (c + w)); lia).
+  destruct (Hfit r0 c0 Hr0 Hc0) as (Hp & H00 & Hsx & Hsy).
+  unfold hf_plane in *.
+  unfold r0, c0 in *. destruct (Z.ltb_spec rr (r + h)) as [Ea | Ea]; destruct (Z.ltb_spec cc (c + w)) as [Eb | Eb].
+  - exact H00.
+  - replace (cc - 1 + 1)%Z with cc in * by lia. rewrite !minus_IZR in *. lra.
+  - replace (rr - 1 + 1)%Z with rr in * by lia. rewrite !minus_IZR in *. lra.
+  - replace (rr - 1 + 1)%Z with rr in * by lia. replace (cc - 1 + 1)%Z with cc in * by lia. rewrite !minus_IZR in *. lra.
+Qed.
+
+(* the slope test (3) is NOT implied by (1) and (2): a flat cell followed by a planar ramp cell passes (1), (2)
+   (the shared corner is on the start plane by construction) while the ramp's far corner is off the plane *)
+Theorem hfield_merge_needs_slope_test :
+  exists (z : Z -> Z -> R),
+    let sx := z 0%Z 1%Z - z 0%Z 0%Z in let sy := z 1%Z 0%Z - z 0%Z 0%Z in
+    cell_fits z 0 0 sx sy 0 0 /\
+    (z 0%Z 1%Z + z 1%Z 2%Z = z 0%Z 2%Z + z 1%Z 1%Z /\ z 0%Z 1%Z = hf_plane z 0 0 sx sy 0 1) /\
+    z 0%Z 2%Z <> hf_plane z 0 0 sx sy 0 2.
+Proof.
+  exists (fun _ cc => if Z.eqb cc 2 then 1 else 0). cbv zeta. unfold cell_fits, hf_plane. cbn. repeat split; lra.
+Qed.
+
 (* ======================================================================== _ray_quad: both roots *)
 (* both roots stored by _ray_quad *)
 Lemma ray_quad_roots (a b c : R) : 0 <= a -> (a = 0 -> b = 0) ->
